@@ -276,7 +276,7 @@ def gen_cases(rng, tier):
             for torus in (False, True):
                 cases += _all_queries_case(kind, dims, torus, 3, rng)
     # sampled larger ones
-    for _ in range(60 if quick else 1500):
+    for _ in range(60 if quick else 3000):
         n = rng.choice([1, 2, 2, 2, 3, 3, 4])
         dims = tuple(rng.randint(1, 5 if n <= 2 else (4 if n == 3 else 3)) for _ in range(n))
         cases.append(_grid_case(rng, rng.choice(["moore", "vn"]), dims, rng.random() < 0.5, rng.randint(2, 5)))
@@ -291,12 +291,12 @@ def gen_cases(rng, tier):
     # 3. networks
     for n in range(1, 5):
         cases.append(_net_case(rng, n))
-    for _ in range(60 if quick else 1200):
+    for _ in range(60 if quick else 2500):
         cases.append(_net_case(rng))
     # 4. Voronoi
     for n in (1, 2, 3, 4):
         cases.append(_vor_case(rng, n))
-    for _ in range(40 if quick else 800):
+    for _ in range(40 if quick else 1500):
         cases.append(_vor_case(rng))
     return cases
 
